@@ -78,7 +78,7 @@ MANIFEST = {
         "design_ref": "DESIGN.md 3/C03",
     }
 }
-PROPS = ["Nstd.Seq.Props", "Nstd.Seq.PropsSort", "Nstd.Seq.PropsAlias", "Nstd.Seq.PropsHeap", "Nstd.Seq.PropsLink", "Nstd.Seq.PropsSortG", "Nstd.Seq.PropsArr", "Nstd.Seq.PropsArr2", "Nstd.Seq.PropsArr3", "Nstd.Seq.PropsArr4", "Nstd.Seq.PropsSortT", "Nstd.Seq.PropsListT"]
+PROPS = ["Nstd.Seq.Props", "Nstd.Seq.PropsSort", "Nstd.Seq.PropsAlias", "Nstd.Seq.PropsHeap", "Nstd.Seq.PropsLink", "Nstd.Seq.PropsSortG", "Nstd.Seq.PropsArr", "Nstd.Seq.PropsArr2", "Nstd.Seq.PropsArr3", "Nstd.Seq.PropsArr4", "Nstd.Seq.PropsSortT", "Nstd.Seq.PropsListT", "Nstd.Seq.PropsPolicy"]
 LEAN_TARGETS = PROPS + ["drv_seq"]
 DRIVER = "drv_seq"
 
@@ -209,6 +209,13 @@ def translate(repo=None):
             f"def listBlockItems : Nat := {lk}\n\n"
             "/-- items per block of `PoolList` -/\n"
             f"def poolBlockItems : Nat := {pk}\n\n"
+            "/-- what the probe built from the current headers PRINTED: (c, n, capacity() after `Array<int>(c).reserve(n)`, storage\n"
+            "    allocated) for c = 0..20, n = 0..64 -/\n"
+            "def reserveProbe : List (Nat × Nat × Nat × Bool) := [\n  " +
+            ",\n  ".join(", ".join(f"({c}, {n}, {cap}, {'true' if st else 'false'})" for c, n, cap, st in R[i:i + 8]) for i in range(0, len(R), 8)) +
+            "]\n\n"
+            "/-- … and (i, capacity() after the i-th `append` to an empty `Array<int>`) for i = 1..80 -/\n"
+            "def growthProbe : List (Nat × Nat) := [" + ", ".join(f"({i}, {c})" for i, c in G) + "]\n\n"
             "end Nstd.Generated.Seq\n")
     GEN_OUT.parent.mkdir(parents=True, exist_ok=True)
     if not GEN_OUT.exists() or GEN_OUT.read_text() != text:
